@@ -1,6 +1,7 @@
 package harness
 
 import (
+	"bytes"
 	"fmt"
 	"io"
 	"math/rand"
@@ -540,6 +541,29 @@ func GenTrip(rng *rand.Rand, thorough bool, emit func(*Sx)) {
 			ro := &smtp.RcptOptions{OriginalRecipientType: smtp.DSNAddressTypeRFC822, OriginalRecipient: strings.Repeat("+", 40) + "@" + strings.Repeat("o", len(ev)) + ".example"}
 			calls := []TripCall{{Kind: "mail", Arg: "s@x", MO: mo}, {Kind: "rcpt", Arg: "r@x", RO: ro}, {Kind: "quit"}}
 			emit(RunTrip(TripCase{Cfg: cfg, LMTP: lmtp, Calls: calls, Extra: []*Sx{L(A("focus"), A("C14"))}}))
+		}
+	}
+
+	// ---- C16: a backend that refuses a large message without reading it (the pipe between client and server
+	// holds nothing: whoever writes first must not wait for the other for ever) ----
+	for _, lmtp := range []bool{false, true} {
+		for _, stop := range []int64{0, 3} {
+			for _, nparts := range []int{1, 8} {
+				cfg := fullCfg(lmtp)
+				p := DefaultPlan()
+				p.Stop, p.Ret = stop, rejectErr()
+				if stop > 0 {
+					p.Sizes = []int{int(stop)}
+				}
+				big := bytes.Repeat([]byte("a line of a message that is refused unread .........\r\n"), 150)
+				var parts [][]byte
+				for i := 0; i < nparts; i++ {
+					parts = append(parts, big[len(big)*i/nparts:len(big)*(i+1)/nparts])
+				}
+				calls := []TripCall{{Kind: "mail", Arg: "s@x"}, {Kind: "rcpt", Arg: "r1@x"},
+					{Kind: "data", Parts: parts, Closes: 1}, {Kind: "noop"}, {Kind: "quit"}}
+				emit(RunTrip(TripCase{Cfg: cfg, Script: Script{Data: []DataPlan{p}}, LMTP: lmtp, Calls: calls, Extra: []*Sx{L(A("focus"), A("C16"))}}))
+			}
 		}
 	}
 
